@@ -1,5 +1,17 @@
 package main
 
+// Engine controls: before /repo is analysed the same engines analyse the tiny
+// package /verif/controls; every Bad* construct must be reported and every
+// Good* one must not.  A failure means the checker itself is broken (exit 2).
+
+import (
+	"fmt"
+	"sort"
+	"strings"
+
+	"golang.org/x/tools/go/ssa"
+)
+
 type controlResult struct {
 	OK       bool     `json:"ok"`
 	Checked  int      `json:"checked"`
@@ -8,5 +20,217 @@ type controlResult struct {
 }
 
 func runControls(dir string) *controlResult {
-	return &controlResult{OK: true}
+	res := &controlResult{OK: true}
+	c, err := loadCtx(loadOpts{dir: dir, rootPath: "controls", config: "controls"})
+	if err != nil {
+		res.OK = false
+		res.Failures = append(res.Failures, "cannot load the controls package: "+err.Error())
+		return res
+	}
+	expect := func(name string, got, want bool, what string) {
+		res.Checked++
+		verdict := "ok"
+		if got != want {
+			res.OK = false
+			verdict = "FAILED"
+			res.Failures = append(res.Failures, fmt.Sprintf("%s: %s — expected reported=%v, got %v", name, what, want, got))
+		}
+		res.Cases = append(res.Cases, fmt.Sprintf("%s [%s] reported=%v %s", name, what, got, verdict))
+	}
+	fn := func(name string) *ssa.Function {
+		f, ok := c.byName[name]
+		if !ok || f.Blocks == nil {
+			res.OK = false
+			res.Failures = append(res.Failures, "control function missing: "+name)
+			return nil
+		}
+		return f
+	}
+
+	// E2 lockset
+	for name, want := range map[string]bool{"(*box).BadLockLeak": true, "(*box).GoodLockDefer": false, "(*box).GoodLockAllPaths": false} {
+		if f := fn(name); f != nil {
+			lr := lockAnalyse(f)
+			expect(name, len(lr.leaks) > 0, want, "lock leaked on some return")
+		}
+	}
+	if f := fn("(*box).BadCallbackUnderLock"); f != nil {
+		lr := lockAnalyse(f)
+		found := false
+		for _, b := range f.Blocks {
+			for _, ins := range b.Instrs {
+				if ci, ok := ins.(ssa.CallInstruction); ok && len(lr.may[ins]) > 0 && mutexOp(ins) == nil {
+					if cb, _ := isCallbackCall(ci.Common()); cb {
+						found = true
+					}
+				}
+			}
+		}
+		expect("(*box).BadCallbackUnderLock", found, true, "callback invoked while the lock is held")
+	}
+
+	// E4 error flow
+	ef := newErrFlow(c, []string{"io.EOF"}, nil)
+	status := map[string][]Status{}
+	for _, f := range ef.analyse() {
+		status[f.fnName] = append(status[f.fnName], f.status)
+	}
+	var efNames []string
+	for n := range status {
+		efNames = append(efNames, n)
+	}
+	sort.Strings(efNames)
+	for _, n := range efNames {
+		if !strings.Contains(n, "Err") {
+			continue
+		}
+		bad := false
+		for _, s := range status[n] {
+			if s != Discharged {
+				bad = true
+			}
+		}
+		switch {
+		case strings.Contains(n, "BadErr"):
+			expect(n, bad, true, "error not accounted for")
+		case strings.Contains(n, "GoodErr"):
+			expect(n, bad, false, "error not accounted for")
+		}
+	}
+	for _, must := range []string{"BadErrDropped", "BadErrBlank", "BadErrSwallowed", "BadErrOverwritten", "BadErrUnrelatedReturn", "GoodErrReturned", "GoodErrChecked", "GoodErrSentinel", "GoodErrLoop", "GoodErrNamedResult", "(*box).GoodErrStickyField"} {
+		if _, ok := status[must]; !ok {
+			res.OK = false
+			res.Failures = append(res.Failures, "error-flow engine found no error-returning call in "+must)
+		}
+	}
+
+	// look-ahead clamp
+	for name, want := range map[string]bool{"BadLookahead": true, "GoodLookahead": false} {
+		f := fn(name)
+		if f == nil {
+			continue
+		}
+		unclamped := false
+		seenSlice := false
+		for _, b := range f.Blocks {
+			for _, ins := range b.Instrs {
+				sl, ok := ins.(*ssa.Slice)
+				if !ok || sl.High == nil || !isByteSlice(sl.X.Type()) {
+					continue
+				}
+				seenSlice = true
+				if _, _, ok := addConst(sl.High); ok {
+					unclamped = true
+				} else if _, isPhi := sl.High.(*ssa.Phi); isPhi {
+					if ok, _ := clampedHigh(sl.High, sl.X); !ok {
+						unclamped = true
+					}
+				}
+			}
+		}
+		expect(name, unclamped, want, "un-clamped look-ahead slice")
+		if !seenSlice {
+			res.OK = false
+			res.Failures = append(res.Failures, name+": no slice expression seen")
+		}
+	}
+
+	// E5 provenance
+	apiSet := map[*ssa.Function]bool{}
+	for _, f := range c.entries().API {
+		apiSet[f] = true
+	}
+	for _, f := range c.entries().CTOR {
+		apiSet[f] = true
+	}
+	h := provHooks{}
+	h.param = func(f *ssa.Function, idx int) labelSet {
+		if apiSet[f] {
+			return lbl("Caller", "parameter of exported "+fnName(f))
+		}
+		return nil
+	}
+	h.global = func(g *ssa.Global) (labelSet, bool) { return lbl("Global:"+g.Name(), g.Name()), true }
+	p := newProv(c, h)
+	recvLabels := func(name, method string) labelSet {
+		f := fn(name)
+		out := labelSet{}
+		if f == nil {
+			return out
+		}
+		for _, b := range f.Blocks {
+			for _, ins := range b.Instrs {
+				if call, ok := ins.(*ssa.Call); ok {
+					if sc := call.Call.StaticCallee(); sc != nil && sc.Name() == method {
+						out.addAll(p.Classify(call.Call.Args[0]))
+					}
+				}
+			}
+		}
+		return out
+	}
+	expect("normalise (via (*holder).BadMutateCaller)", recvLabels("normalise", "Set").has("Caller"), true, "mutated object can be caller-supplied")
+	expect("mark (via GoodMutateFresh)", recvLabels("mark", "Set").has("Caller"), false, "mutated object can be caller-supplied")
+	writesGlobal := func(name string) bool {
+		f := fn(name)
+		if f == nil {
+			return false
+		}
+		for _, w := range c.writeSitesIn(f) {
+			var v ssa.Value = w.base
+			if v == nil {
+				v = w.cont
+			}
+			if v == nil {
+				continue
+			}
+			if _, ok := hasPrefixLabel(p.ClassifyAt(v, w.ins.Block()), "Global:"); ok {
+				return true
+			}
+		}
+		return false
+	}
+	expect("BadWriteGlobal", writesGlobal("BadWriteGlobal"), true, "write reaches package-level state")
+	expect("GoodWriteLocal", writesGlobal("GoodWriteLocal"), false, "write reaches package-level state")
+	expect("BadSingleton", writesGlobal("BadSingleton"), true, "write can reach the shared singleton (no diverting comparison)")
+	expect("GoodSingleton", writesGlobal("GoodSingleton"), false, "write can reach the shared singleton (comparison diverts it)")
+
+	// reset completeness helpers
+	if f := fn("(*box).BadResetPartial"); f != nil {
+		ok, _ := fullRangeZeroLoop(f, targetsOf(f, 0), "items")
+		expect("(*box).BadResetPartial", !ok, true, "retained slice not zeroed over its whole range")
+	}
+	if f := fn("(*box).GoodResetFull"); f != nil {
+		ok, _ := fullRangeZeroLoop(f, targetsOf(f, 0), "items")
+		expect("(*box).GoodResetFull", !ok, false, "retained slice not zeroed over its whole range")
+	}
+	for name, want := range map[string]bool{"(*box).BadSetSomePaths": true, "(*box).GoodSetAllPaths": false} {
+		f := fn(name)
+		if f == nil {
+			continue
+		}
+		ev := fieldEvents(f, targetsOf(f, 0))
+		blocks := map[*ssa.BasicBlock]bool{}
+		for _, e := range ev["buf"] {
+			blocks[e.ins.Block()] = true
+		}
+		uncovered := false
+		for _, b := range f.Blocks {
+			if _, isRet := b.Instrs[len(b.Instrs)-1].(*ssa.Return); isRet && !coveredOnAllPaths(f, blocks, b) {
+				uncovered = true
+			}
+		}
+		expect(name, uncovered, want, "field re-established only on some paths")
+	}
+
+	// wire extraction
+	w := newWireExtractor(c, "w")
+	r := newWireExtractor(c, "r")
+	ws := kindsOnly(transparentALT(w.signature("WireWriter")))
+	rs := kindsOnly(transparentALT(r.signature("WireReader")))
+	expect("WireWriter signature", ws != "UV RAW [U64] U32", false, "unexpected writer signature "+ws)
+	expect("WireReader signature", rs != "UV [U64] U32", false, "unexpected reader signature "+rs)
+	_ = w.signature("WireWriterLE")
+	expect("WireWriterLE", len(w.problems) > 0, true, "non-big-endian byte order")
+	return res
 }
